@@ -478,8 +478,13 @@ pub fn cmd_tamper(args: &[String]) {
     let mut rep = Report::new();
     let adls: [i64; 5] = [-1, 0, 1, 16, 33];
     let mut idx = 0usize;
-    for mlen in 0..=lmax {
+    // every length up to lmax, then message lengths around the 4 KiB / 8 KiB marks (of message and of ciphertext) with a
+    // thinned fault family: chunked or single-pass code paths start there
+    let big: [usize; 12] = [4078, 4079, 4080, 4095, 4096, 4097, 4111, 4112, 8175, 8192, 8193, 65537];
+    for mlen in (0..=lmax).chain(big.iter().copied()) {
+        let thin = mlen > lmax;
         for &adl in adls.iter() {
+            if thin && adl != -1 && adl != 16 { continue; }
             let key: [u8; 32] = rng.arr();
             let header: [u8; 24] = rng.arr();
             let m = rng.bytes(mlen);
@@ -507,15 +512,16 @@ pub fn cmd_tamper(args: &[String]) {
             let mut fam: Vec<([u8; 32], [u8; 24], Vec<u8>, Option<Vec<u8>>, String, &str)> = vec![];
             fam.push((key, header, c.clone(), ad.clone(), "untampered".into(), "none"));
             for byte in 0..c.len() { for bit in 0..8 {
+                if thin && !((byte < 2 || byte + 17 == c.len() || byte + 16 == c.len() || byte + 1 == c.len() || byte == c.len() / 2) && bit == byte % 8) { continue; }
                 let mut x = c.clone(); x[byte] ^= 1 << bit;
                 let comp = if byte == 0 { "tag byte" } else if byte < 1 + mlen { "body" } else { "mac" };
                 fam.push((key, header, x, ad.clone(), format!("{} byte {} bit {}", comp, byte, bit), "flip ciphertext"));
             } }
-            for byte in 0..24 { for bit in 0..8 { let mut h = header; h[byte] ^= 1 << bit; fam.push((key, h, c.clone(), ad.clone(), format!("header byte {} bit {}", byte, bit), "flip header")); } }
-            for byte in 0..32 { for bit in 0..8 { let mut k = key; k[byte] ^= 1 << bit; fam.push((k, header, c.clone(), ad.clone(), format!("key byte {} bit {}", byte, bit), "flip key")); } }
+            for byte in 0..24 { for bit in 0..8 { if thin && !(byte % 11 == 0 && bit == 3) { continue; } let mut h = header; h[byte] ^= 1 << bit; fam.push((key, h, c.clone(), ad.clone(), format!("header byte {} bit {}", byte, bit), "flip header")); } }
+            for byte in 0..32 { for bit in 0..8 { if thin && !(byte % 13 == 0 && bit == 5) { continue; } let mut k = key; k[byte] ^= 1 << bit; fam.push((k, header, c.clone(), ad.clone(), format!("key byte {} bit {}", byte, bit), "flip key")); } }
             if let Some(a) = &ad { for byte in 0..a.len() { for bit in 0..8 { let mut x = a.clone(); x[byte] ^= 1 << bit; fam.push((key, header, c.clone(), Some(x), format!("AD byte {} bit {}", byte, bit), "flip AD")); } } }
-            for n in 1..=c.len() { fam.push((key, header, c[..c.len() - n].to_vec(), ad.clone(), format!("truncated by {} (to {} bytes)", n, c.len() - n), "truncate")); }
-            for n in 1..=40usize { let mut x = c.clone(); x.extend(rng.bytes(n)); fam.push((key, header, x, ad.clone(), format!("extended by {}", n), "extend")); }
+            for n in 1..=c.len() { if thin && ![1usize, 16, 17, c.len() / 2, c.len() - 17, c.len()].contains(&n) { continue; } fam.push((key, header, c[..c.len() - n].to_vec(), ad.clone(), format!("truncated by {} (to {} bytes)", n, c.len() - n), "truncate")); }
+            for n in 1..=40usize { if thin && n != 1 && n != 16 { continue; } let mut x = c.clone(); x.extend(rng.bytes(n)); fam.push((key, header, x, ad.clone(), format!("extended by {}", n), "extend")); }
             for (k, h, x, a, how, kind) in fam.iter() {
                 // classic pull
                 rep.evaluations += 1;
